@@ -279,6 +279,8 @@ type c01Gen struct {
 	states           []ring.InstanceState
 	tokenless        bool
 	pReadOnly        int // out of 8: probability that an instance carries the ReadOnly flag (0: never, no randomness drawn)
+	pUnsorted        int // out of 8: probability that an instance lists its (>= 2) tokens out of ascending order
+	pDupToken        int // out of 16: probability that an instance lists one of its tokens twice (malformed: diff only)
 }
 
 func c01GenDesc(r *rng, g c01Gen) *ring.Desc {
@@ -315,6 +317,20 @@ func c01GenDesc(r *rng, g c01Gen) *ring.Desc {
 		sort.Slice(i.Tokens, func(a, b int) bool { return i.Tokens[a] < i.Tokens[b] })
 		if g.pReadOnly > 0 && r.intn(8) < g.pReadOnly {
 			i.ReadOnly = true // Get/GetWithOptions do not treat read-only instances specially
+		}
+		// "Tokens may not be sorted for an older version": consul/etcd-style stores hand the descriptor to
+		// updateRingState as written; Desc.GetTokens must sort each list before the k-way merge.
+		if g.pUnsorted > 0 && len(i.Tokens) >= 2 && r.intn(8) < g.pUnsorted {
+			for a := len(i.Tokens) - 1; a > 0; a-- {
+				b := r.intn(a + 1)
+				i.Tokens[a], i.Tokens[b] = i.Tokens[b], i.Tokens[a]
+			}
+			if sort.SliceIsSorted(i.Tokens, func(a, b int) bool { return i.Tokens[a] < i.Tokens[b] }) {
+				i.Tokens[0], i.Tokens[len(i.Tokens)-1] = i.Tokens[len(i.Tokens)-1], i.Tokens[0]
+			}
+		}
+		if g.pDupToken > 0 && len(i.Tokens) >= 1 && r.intn(16) < g.pDupToken {
+			i.Tokens = append(i.Tokens, i.Tokens[r.intn(len(i.Tokens))])
 		}
 		d.Ingesters[id] = i
 	}
@@ -418,7 +434,7 @@ func runC01(e *env) {
 		for c := 0; c < 160*e.scale; c++ {
 			cfg := c01Cfg{rf: 1 + r.intn(3), za: r.chance(1, 2), timeout: 60}
 			g := c01Gen{minInst: 1, maxInst: 3, maxTokens: 2, tokens: c01SmallTokens, pAlphabet: 4, zones: []string{"a", "b"},
-				states: []ring.InstanceState{ring.ACTIVE, ring.ACTIVE, ring.JOINING, ring.LEAVING}, tokenless: true}
+				states: []ring.InstanceState{ring.ACTIVE, ring.ACTIVE, ring.JOINING, ring.LEAVING}, tokenless: true, pUnsorted: 2}
 			if r.chance(1, 4) {
 				g.zones = []string{"a", "b", ""}
 			}
@@ -445,7 +461,7 @@ func runC01(e *env) {
 			if r.chance(1, 5) {
 				cfg.timeout = 3600
 			}
-			g := c01Gen{minInst: 1, maxInst: 7, maxTokens: 4, pAlphabet: 2, zones: c01Zones(r, cfg.za), states: c01States, tokenless: true, pReadOnly: 1}
+			g := c01Gen{minInst: 1, maxInst: 7, maxTokens: 4, pAlphabet: 2, zones: c01Zones(r, cfg.za), states: c01States, tokenless: true, pReadOnly: 1, pUnsorted: 2, pDupToken: 1}
 			d := c01GenDesc(r, g)
 			if cfg.rf > len(d.Ingesters) && r.chance(2, 3) {
 				cfg.rf = 1 + r.intn(len(d.Ingesters))
@@ -524,7 +540,7 @@ func runC01(e *env) {
 				zs = []string{"a", "b", "c", "d", "e", "f", "g"}
 			}
 			g := c01Gen{minInst: 9, maxInst: 30, maxTokens: 16, pAlphabet: 0, zones: zs,
-				states: []ring.InstanceState{ring.ACTIVE, ring.ACTIVE, ring.JOINING, ring.PENDING, ring.LEAVING}, tokenless: false}
+				states: []ring.InstanceState{ring.ACTIVE, ring.ACTIVE, ring.JOINING, ring.PENDING, ring.LEAVING}, tokenless: false, pUnsorted: 3}
 			if r.chance(1, 3) {
 				g.states = []ring.InstanceState{ring.JOINING, ring.PENDING, ring.ACTIVE} // long extended sets
 			}
@@ -548,7 +564,7 @@ func runC01(e *env) {
 			if r.chance(1, 4) {
 				zs = []string{"a", "b"}
 			}
-			g := c01Gen{minInst: 3, maxInst: 7, maxTokens: 2, pAlphabet: 1, zones: zs, pReadOnly: 3,
+			g := c01Gen{minInst: 3, maxInst: 7, maxTokens: 2, pAlphabet: 1, zones: zs, pReadOnly: 3, pUnsorted: 2,
 				states: []ring.InstanceState{ring.ACTIVE, ring.ACTIVE, ring.ACTIVE, ring.LEAVING, ring.JOINING, ring.PENDING}}
 			d := c01GenDesc(r, g)
 			if r.chance(1, 3) { // a whole zone read-only
